@@ -103,7 +103,8 @@ mod vk_vec {
                     k += 1;
                 }
                 assert!(l == clamp_end(c, n, len) - c, "[C01 C03 exact-len] chunk length is min(n, len - c)");
-                if take >= l { assert!(ch.values.next().is_none(), "[C03 exact-len] the chunk yields exactly the announced number of elements"); }
+                if take >= l { assert!(ch.values.next().is_none(), "[C03 exact-len] the chunk yields exactly the announced number of elements");
+                               assert!(ch.values.len() == 0 && ch.values.next().is_none(), "[C03 exact-len-after-end] an exhausted chunk keeps reporting length 0 and the end"); }
                 drop(ch);
             }
             None => assert!(c >= len, "[C01 C03 none-iff] None only past the end"),
